@@ -28,8 +28,30 @@ def make_scenarios(ctx, count):
         s.iface(0, **H.iface_kw(cfa)).iface(1, **H.iface_kw(cfb)).glob(**G.global_kw(G.rand_global(rng, icon_size=10)))
         s.add("OPT sleep=0")
         ops = []
+        # a third (and fourth) interface of the same host with traffic of its own, busier than A and B at times: a bystander
+        bystanders = []
+        if i % 3 == 2:
+            for k in range(rng.choice([1, 2])):
+                cfx = G.rand_cfg(rng, mtu=1500)
+                if cfx["mac"] in (a, b):
+                    continue
+                s.iface(2 + k, **H.iface_kw(cfx))
+                bystanders.append((2 + k, cfx, G.Net(rng, cfx["mac"])))
+            s.meta["bystanders"] = len(bystanders)
+
+        def bystander_traffic(n):
+            for _ in range(n):
+                if not bystanders:
+                    return
+                k, cfx, netx = rng.choice(bystanders)
+                r = rng.random()
+                fr = G.f_discover(rng, netx, m=0, tos=0) if r < 0.2 else G.f_probe(rng, netx, to_me=True) if r < 0.8 else G.f_query(rng, netx, 0)
+                s.frame(k, fr)
+                ops.append(("F", k, fr))
 
         def feed(ifc, fr, tag):
+            if bystanders and rng.random() < 0.3:
+                bystander_traffic(rng.choice([1, 1, 2, 6]))
             if i % 2 and rng.random() < 0.2:      # the clock moves on by an arbitrary amount between frames
                 s.add("ADV %d" % rng.choice(s.GAPS_MS))
                 s.meta["clock_gaps"] = s.meta.get("clock_gaps", 0) + 1
@@ -107,6 +129,7 @@ def make_scenarios(ctx, count):
             feed(0, W.emit(a, neta.mappers[m], seq, descs, eth_src=neta.bridges[m] if (bridged or b_is_bridge) else None), "EMIT")
             s.add("DELIVER 0 1")
             ops.append(("DELIVER", descs))
+            bystander_traffic(rng.choice([0, 1, 3, 8]) if bystanders else 0)     # between B recording the frames and the mapper asking for them
             for _ in range(rng.randint(0, 2)):
                 # the mapper repeats its Discover before querying, sometimes already under a new generation number
                 feed(1, G.f_discover(rng, netb, m=m, tos=0, bridged=bridged and not b_is_bridge,
@@ -218,6 +241,8 @@ def monitor(scn, sobj, rep, sf, ck):
         rep.count("frames_delivered_to_the_mappers_bridge", delivered_total)
     rep.count("rounds", rounds)
     rep.count("sibling_descriptors", sobj.meta.get("sibling_descriptors", 0))
+    if sobj.meta.get("bystanders") and delivered_total:
+        rep.count("rounds_beside_other_busy_interfaces", rounds)
     if delivered_total and len(rep.samples) < 2:
         rep.sample(dict(scenario=scn.sid, A=a.hex(), B=b.hex(), delivered=delivered_total, rounds=rounds))
 
@@ -240,6 +265,7 @@ def run(ctx):
     run_monitored(ctx, os_clang, scns[third:2 * third], monitor, tag="peer-clang-os")
     run_monitored(ctx, uchar, scns[2 * third:], monitor, tag="peer-uchar")
     rep.need("frames_delivered", rep.counters.get("frames_delivered", 0), 1000)
+    rep.need("rounds_beside_other_busy_interfaces", rep.counters.get("rounds_beside_other_busy_interfaces", 0), 100)
     rep.need("sibling_descriptors", rep.counters.get("sibling_descriptors", 0), 200)
     rep.need("frames_emitted_again_after_a_truncated_response", rep.counters.get("frames_emitted_again_after_a_truncated_response", 0), 20)
     rep.need("emitter_address_changed_mid_session", rep.counters.get("emitter_address_changed_mid_session", 0), 30)
